@@ -228,13 +228,46 @@ def shard_stage2_arm(part, nparts, seed, members):
     return acc
 
 
-ALL_CFG = [c for c in gen.CONFIGS if c != 'v6-vec']
+def shard_coproc(seed, count):
+    """every coprocessor encoding (MCR/MRC/MCRR/MRRC/CDP/LDC/STC, conditional and unconditional, ARM and Thumb) x every coprocessor number p0..p15 x
+    field corners, in Non-secure PL1 / Hyp / Secure modes of the configuration with Security + Virtualization Extensions, with every trap control
+    (HCPTR incl. TCPAC / TTA, HSTR incl. TTEE / TJDBX, HCR, CPACR, NSACR) random: the acceptance logic has a decision for each of them"""
+    from vf.props import e1prop
+    acc = Acc()
+    rng = random.Random(seed)
+    rows = [n for n in e1prop.ROWS if n.startswith(('MCR', 'MRC', 'MCRR', 'MRRC', 'CDP', 'LDC', 'STC')) and 'p' in e1prop.ROWS[n][1].fields]
+    for _ in range(count):
+        name = rows[rng.randrange(len(rows))]
+        tn, row = e1prop.ROWS[name]
+        f = {k: rng.getrandbits(len(p)) for k, p in row.fields.items()}
+        for k in f:
+            if k not in 'pc' and rng.random() < 0.4:
+                f[k] = rng.choice((0, 1, (1 << len(row.fields[k])) - 1, 13 % (1 << len(row.fields[k])), 15 % (1 << len(row.fields[k]))))
+        f['p'] = rng.choice((15, 15, 15, 14, 14, 10, 11, rng.randrange(16)))
+        if 'c' in f:
+            f['c'] = 14
+        w = row.build(**f)
+        thumb = tn != 'arm'
+        code = e1.enc_arm(w) if not thumb else e1.enc_thumb(w, True) + b'\x00\xbf'
+        case = gen.step_case(rng, rng.choice(('v7-virt', 'v7-virt', 'v7-vmsa', 'v6')), thumb, code, hooked=rng.random() < 0.5, it=0, mmu=False, mpu=False,
+                             mode=rng.choice(('svc', 'usr', 'hyp', 'sys', 'mon', 'irq')), ns=rng.random() < 0.7)
+        st_ = case['state']
+        if 'hcr' in st_ or case['cfg'].get('have_virt_ext'):
+            st_['hcr'] = rng.getrandbits(32) & ~1
+            st_['hstr'] = rng.getrandbits(18)
+            st_['hcptr'] = rng.getrandbits(14) | (rng.getrandbits(1) << 20) | (rng.getrandbits(1) << 31)
+        st_['cpacr'] = rng.getrandbits(28) | (rng.getrandbits(2) << 30)
+        check_case(acc, case, 'coprocessor/' + name, ('cp', w, st_['cpsr'], st_.get('hstr'), st_.get('hcptr')))
+    return acc
+
+
+ALL_CFG = [c for c in gen.CONFIGS if c not in ('v6-vec', 'v7-vfp')]
 
 
 def run(ctx):
     ctx.rule = ('emulate_cycle() on: every 16-bit Thumb halfword (32-bit starters paired with a generated second halfword) in each IT '
                 'position {outside, first, middle, last}; one witness + solver-generated members for every joint decoder region of the 32-bit Thumb '
-                'space (and of the ARM space in the thorough tier); random / test-suite-derived ARM and 32-bit Thumb words; every load / store path of both decoders once more under stage-2 translation (HCR.VM = 1, Non-secure PL1/PL0); random 2-20 step programs, half of them with IRQ / FIQ / reset / event injections between steps; '
+                'space (and of the ARM space in the thorough tier); random / test-suite-derived ARM and 32-bit Thumb words; every load / store path of both decoders once more under stage-2 translation (HCR.VM = 1, Non-secure PL1/PL0); every coprocessor encoding x p0..p15 under random trap controls; random 2-20 step programs, half of them with IRQ / FIQ / reset / event injections between steps; '
                 'each in a generated valid state (every mode, MPU/MMU on and off, registers pointing into / next to / away from memory, '
                 'code at 0, mid-space, high vectors and the last bytes below 2^32) on configurations ' + ', '.join(ALL_CFG) + '. '
                 'Oracle: validity predicate - the call returns (completed or architectural exception taken) or raises NotImplementedError '
@@ -263,6 +296,7 @@ def run(ctx):
     from vf.props import c07
     c07.SPEC32.compute_joint()
     tasks += [(shard_witness, ('t32', i, 8, ctx.shard_seed(k + i), ctx.n(6, 40))) for i in range(8)]
+    tasks += [(shard_coproc, (ctx.shard_seed(k + 40 + i), ctx.n(3000, 40000))) for i in range(4)]
     tasks += [(shard_stage2_arm, (i, 4, ctx.shard_seed(k + 30 + i), ctx.n(4, 40))) for i in range(4)]
     if not ctx.quick:
         from vf.props import c06
